@@ -159,9 +159,19 @@ func (tds *Conn) Close() error {
 	}
 	tds.tdsChannelsLock.RUnlock()
 
-	for _, channel := range tdsChannels {
-		if err := channel.Close(); err != nil {
-			me = multierror.Append(me, fmt.Errorf("error closing channel: %w", err))
+	// Close the main channel last. The reader goroutine may be blocked
+	// delivering packages to one of the other channels, in which case
+	// the response to the logout on the main channel could not be read
+	// before that channel is closed.
+	for _, main := range []bool{false, true} {
+		for _, channel := range tdsChannels {
+			if (channel.channelId == 0) != main {
+				continue
+			}
+
+			if err := channel.Close(); err != nil {
+				me = multierror.Append(me, fmt.Errorf("error closing channel: %w", err))
+			}
 		}
 	}
 
